@@ -198,6 +198,10 @@ class TickPersistenceDecorator(BaseRuntimeDecorator):
         """
         serializer = JsonSerializer()
         legacy_ctx = self._get_legacy_ctx(run_id)
+        # The @catch_error routing tables are built by validation, which otherwise
+        # first happens in workflow.run(). Replay needs them to classify a failed
+        # step the way the live run did (routed to its handler, not a failed run).
+        workflow._validate()
 
         tick_stream = stream_workflow_ticks(self._store, run_id)
         try:
